@@ -87,18 +87,20 @@ static std::string weights_text(const Cfg& c) {
   return s.str();
 }
 
+static bool g_rejected = false; // the implementation refused the configuration (error from a setter / parser returned false)
 template <class P> static void configure_weights(P& p, const Cfg& c) {
   if (c.userw) {
     Array<3, float> w(IndexRange3D(-c.wr[0], c.wr[0], -c.wr[1], c.wr[1], -c.wr[2], c.wr[2]));
     size_t k = 0;
     for (auto it = w.begin_all(); it != w.end_all(); ++it) *it = c.w[k++];
-    p.set_weights(w);
+    if (vh::threw([&] { p.set_weights(w); })) g_rejected = true;
   }
 }
 
 // builds a fresh, set-up prior for the configuration
 static Box make_prior(const Cfg& c, const shared_ptr<Img>& target) {
   Box b;
+  g_rejected = false;
   shared_ptr<Img> kap;
   if (!c.kappa.empty()) kap = image_from(c, c.kappa);
   if (c.prior == "quad") {
@@ -110,7 +112,8 @@ static Box make_prior(const Cfg& c, const shared_ptr<Img>& target) {
       if (c.userw) s << "weights:=" << weights_text(c) << "\n";
       s << "END Quadratic Prior Parameters:=\n";
       std::istringstream in(s.str());
-      q->parse(in);
+      bool ok = false;
+      if (vh::threw([&] { ok = q->parse(in); }) || !ok) g_rejected = true;
     } else {
       q->open_set_only_2D(c.only2D);
       q->set_penalisation_factor(c.beta);
@@ -128,7 +131,8 @@ static Box make_prior(const Cfg& c, const shared_ptr<Img>& target) {
       if (c.userw) s << "weights:=" << weights_text(c) << "\n";
       s << "END Relative Difference Prior Parameters:=\n";
       std::istringstream in(s.str());
-      q->parse(in);
+      bool ok = false;
+      if (vh::threw([&] { ok = q->parse(in); }) || !ok) g_rejected = true;
     } else {
       q->open_set_only_2D(c.only2D);
       q->set_penalisation_factor(c.beta);
@@ -147,7 +151,8 @@ static Box make_prior(const Cfg& c, const shared_ptr<Img>& target) {
       if (c.userw) s << "weights:=" << weights_text(c) << "\n";
       s << "END Logcosh Prior Parameters:=\n";
       std::istringstream in(s.str());
-      q->parse(in);
+      bool ok = false;
+      if (vh::threw([&] { ok = q->parse(in); }) || !ok) g_rejected = true;
     } else {
       q->open_set_only_2D(c.only2D);
       q->set_penalisation_factor(c.beta);
@@ -167,7 +172,7 @@ static Box make_prior(const Cfg& c, const shared_ptr<Img>& target) {
     if (kap) q->set_kappa_sptr(kap);
     b.get_weights = []() { return Array<3, float>(); };
   }
-  b.p->set_up(target);
+  if (!g_rejected) b.p->set_up(target);
   return b;
 }
 
@@ -272,12 +277,21 @@ static void symmetric_weights(Cfg& c, vh::Rng& rng, int rz, int ry, int rx, int 
 static void pick_weights(Cfg& c, vh::Rng& rng, int idx, bool exact) {
   const float step = exact ? 1.F : 0.25F;
   const int qmax = exact ? 3 : 8;
-  switch (idx % 6) {
+  switch (idx % 8) {
   case 0: symmetric_weights(c, rng, 1, 1, 1, qmax, step); break;                 // 3x3x3
   case 1: symmetric_weights(c, rng, 2, 2, 2, exact ? 2 : 4, step, 3); break;     // 5x5x5, sparse
   case 2: symmetric_weights(c, rng, 0, 1, 1, qmax, step); break;                 // 2D stencil
   case 3: symmetric_weights(c, rng, 1, 1, 1, qmax, step); c.parse_route = true; break; // 3x3x3 through the parser
   case 4: symmetric_weights(c, rng, rng.range(0, 2), rng.range(0, 2), rng.range(0, 2), qmax, step, 1); break; // anisotropic stencil
+  case 6: // weights that are NOT symmetric under dr -> -dr
+    symmetric_weights(c, rng, 1, 1, 1, qmax, step);
+    for (size_t k = 0; k < c.w.size() / 2; ++k) c.w[k] = rng.range(0, qmax) * step;
+    c.w[12] = c.w[14] + step;
+    break;
+  case 7: // a non-zero weight at the centre of the stencil
+    symmetric_weights(c, rng, 1, 1, 1, qmax, step);
+    c.w[13] = rng.range(1, qmax) * step;
+    break;
   default:
     if (exact) symmetric_weights(c, rng, 1, 1, 1, qmax, step);
     else { c.userw = false; c.only2D = false; }
@@ -312,7 +326,7 @@ static void run_exact(vh::Trace& tr, vh::Rng& rng, int idx, bool big) {
   const bool quad = c.prior == "quad";
   pick_shape(c, rng, idx / 2, big && quad, quad ? 720 : 30);
   c.sp[0] = 1.F + rng.range(0, 3); c.sp[1] = 1.F + rng.range(0, 3) * 0.5F; c.sp[2] = 1.F + rng.range(0, 2);
-  pick_weights(c, rng, idx / 2 + idx / 12, true);
+  pick_weights(c, rng, idx / 2 + idx / 16, true);
   if (rng.range(0, 2) != 0) c.kappa = random_ints(rng, c.nvox(), 1, quad ? 3 : 2);
   c.beta = (float)rng.range(1, quad ? 3 : 2);
   c.gamma = (float)rng.range(0, 3);
@@ -323,6 +337,12 @@ static void run_exact(vh::Trace& tr, vh::Rng& rng, int idx, bool big) {
   shared_ptr<Img> target = make_image(c);
   Box b = make_prior(c, target);
   Prior& p = *b.p;
+  if (g_rejected) {
+    vh::Json j("ConfigRejected");
+    j.num("id", ++cfg_id).str("prior", c.prior).str("mode", "E").arr("wr", std::vector<int>{ c.wr[0], c.wr[1], c.wr[2] }).arr("w", asint(c.w)).str("route", c.parse_route ? "parse" : "api");
+    finish(tr, j);
+    return;
+  }
   {
     vh::Json j("Config");
     j.num("id", ++cfg_id).str("prior", c.prior).str("mode", "E").arr("dims", std::vector<int>{ c.n[0], c.n[1], c.n[2] })
@@ -355,14 +375,54 @@ static void run_exact(vh::Trace& tr, vh::Rng& rng, int idx, bool big) {
       j.boolean("err", err).num("k", kG).arr("g", m).num("res", res);
       finish(tr, j);
     }
+    std::vector<std::vector<float>> rows(n);
+    bool rows_ok = true;
     for (int i = 0; i < n; ++i) {
-      std::vector<float> row;
+      std::vector<float>& row = rows[i];
       bool ok = hess_row(p, c, *x, i, row);
+      rows_ok = rows_ok && ok;
       long long res = 0;
       for (float v : row) res = std::max(res, resq(v, kH));
       vh::Json j("HRow");
       j.boolean("err", !ok).num("i", i + 1).num("k", kH).arr2("nz", sparse(row, kH)).num("res", res);
       finish(tr, j);
+    }
+    // observation tuples on a sample of voxels: V(x+e_i), V(x-e_i), g_i(x); g_i(x+e_j), g_i(x), H_ij; H_ij, H_ji
+    {
+      std::vector<int> vox;
+      if (n <= 12) for (int i = 0; i < n; ++i) vox.push_back(i);
+      else { vox = { 0, n - 1, n / 2 }; for (int t = 0; t < 5; ++t) vox.push_back(rng.range(0, n - 1)); }
+      std::vector<float> g = gradient(p, *x);
+      for (int i : vox) {
+        if (quad) {
+          std::vector<float> a = xv, b2 = xv;
+          a[i] += 1.F; b2[i] -= 1.F;
+          double vp = 0, vm = 0;
+          vh::threw([&] { vp = p.compute_value(*image_from(c, a)); vm = p.compute_value(*image_from(c, b2)); });
+          vh::Json j("FDE");
+          j.num("i", i + 1).num("k", 2).num("vp", fxq(vp, 2)).num("vm", fxq(vm, 2)).num("g", fxq(g[i], 0))
+              .num("res", std::max(std::max(resq(vp, 2), resq(vm, 2)), resq(g[i], 0)));
+          finish(tr, j);
+        }
+        // partners: the voxel itself, its flat neighbours, and a random voxel
+        for (int jx : { i, i + 1, i - 1, i + c.n[2], rng.range(0, n - 1) }) {
+          if (jx < 0 || jx >= n) continue;
+          if (rows_ok) {
+            vh::Json j("SymE");
+            j.num("i", i + 1).num("j", jx + 1).num("k", kH).num("hij", fxq(rows[i][jx], kH)).num("hji", fxq(rows[jx][i], kH));
+            finish(tr, j);
+          }
+          if (quad && rows_ok) {
+            std::vector<float> a = xv;
+            a[jx] += 1.F;
+            std::vector<float> ga = gradient(p, *image_from(c, a));
+            vh::Json j("JacE");
+            j.num("i", i + 1).num("j", jx + 1).num("k", 0).num("gp", fxq(ga[i], 0)).num("g0", fxq(g[i], 0)).num("h", fxq(rows[i][jx], 0))
+                .num("res", std::max(std::max(resq(ga[i], 0), resq(g[i], 0)), resq(rows[i][jx], 0)));
+            finish(tr, j);
+          }
+        }
+      }
     }
     for (int d = 0; d < 2; ++d) {
       std::vector<float> vv = d == 0 ? random_ints(rng, n, -2, 2) : xv; // a random direction and the image itself
@@ -408,10 +468,10 @@ static void run_rel(vh::Trace& tr, vh::Rng& rng, int idx, bool big) {
     case 0: break;                                  // default weights from the grid spacing
     case 1: c.only2D = true; break;                 // default 2D weights
     case 2: c.only2D = true; c.parse_route = true; break;
-    default: pick_weights(c, rng, rng.range(0, 4), false); break;
+    default: pick_weights(c, rng, (idx / 20) % 8 >= 6 ? (idx / 20) % 8 : rng.range(0, 4), false); break;
     }
   } else
-    c.only2D = (idx / 4) % 3 == 1;
+    c.only2D = (idx / 4) % 3 == 1 && !getenv("C09_SKIP_PLS2D"); // (PLSPrior with only_2D binds references to null pointers: outside C09, see notes)
   const int n = c.nvox();
   if (rng.range(0, 2) != 0) c.kappa = random_dyadic(rng, n, 4, 11, 0.25F); // [1, 2.75]
   static const float BETA[] = { 1.F, 0.5F, 2.F, 3.F, 0.75F };
@@ -428,6 +488,12 @@ static void run_rel(vh::Trace& tr, vh::Rng& rng, int idx, bool big) {
   shared_ptr<Img> target = make_image(c);
   Box b = make_prior(c, target);
   Prior& p = *b.p;
+  if (g_rejected) {
+    vh::Json j("ConfigRejected");
+    j.num("id", ++cfg_id).str("prior", c.prior).str("mode", "F").arr("wr", std::vector<int>{ c.wr[0], c.wr[1], c.wr[2] }).arr("w", fxv(c.userw ? c.w : std::vector<float>(), 2)).str("route", c.parse_route ? "parse" : "api");
+    finish(tr, j);
+    return;
+  }
   // a generic image on the 1/8 grid in [1/8, 4)
   std::vector<float> xv = random_dyadic(rng, n, 1, 31, 0.125F);
   shared_ptr<Img> x = image_from(c, xv);
@@ -450,7 +516,7 @@ static void run_rel(vh::Trace& tr, vh::Rng& rng, int idx, bool big) {
     vh::Json j("Config");
     j.num("id", ++cfg_id).str("prior", c.prior).str("mode", "F").arr("dims", std::vector<int>{ c.n[0], c.n[1], c.n[2] })
         .arr("mins", std::vector<int>{ c.mn[0], c.mn[1], c.mn[2] }).arr("wr", std::vector<int>{ wr[0], wr[1], wr[2] })
-        .boolean("userw", c.userw).boolean("only2D", c.only2D).boolean("hasKappa", !c.kappa.empty()).boolean("convex", p.is_convex())
+        .boolean("userw", c.userw).arr("w4", fxv(c.userw ? c.w : std::vector<float>(), 2)).boolean("only2D", c.only2D).boolean("hasKappa", !c.kappa.empty()).boolean("convex", p.is_convex())
         .num("betaCeil", (long long)std::ceil(c.beta)).num("wsum", (long long)std::ceil(wsum)).num("kmax2", (long long)std::ceil(kmax * kmax))
         .num("beta1000", (long long)std::llround(c.beta * 1000)).arr("sp1000", std::vector<long long>{ std::llround(c.sp[0] * 1000), std::llround(c.sp[1] * 1000), std::llround(c.sp[2] * 1000) })
         .arr("par1000", std::vector<long long>{ std::llround(c.gamma * 1000), std::llround(c.eps * 1000), std::llround(c.scalar * 1000), std::llround(c.alpha * 1000), std::llround(c.eta * 1000) })
